@@ -661,7 +661,7 @@ def main():
         nxt = g.n
         kb, kd, nxt = mini_bins(ck, os.path.join(VERIF, "corpus", "c16.jsonl"), "c16k", nxt)
         nb, nd = [], []
-        for k, o in enumerate(negative_cases() if ck.tier == "thorough" or True else []):
+        for k, o in enumerate(negative_cases()):
             b1, d1, nxt = mini_bins(ck, o, "c16n%d_" % k, nxt)
             nb += b1
             nd += d1
